@@ -33,11 +33,19 @@ ErrTextKinds(input, err, msg) ==
       THEN <<"errtext-word">> ELSE <<>>)
   \o (IF ~HasChar(input, cBT) /\ ~QuotesOnlyInput(msg, input) THEN <<"errtext-foreign-quote">> ELSE <<>>)
 
+\* whatever the spelling, and whether or not the specification defines its meaning: a tree that is RETURNED
+\* holds no scan-wide option (C13), and a panic is never an answer (C03)
+RECURSIVE HasOptionNode(_)
+HasOptionNode(t) ==
+  IF t.k \in {"and", "or", "list"} THEN HasOptionNode(t.l) \/ HasOptionNode(t.r)
+  ELSE IF t.k \in {"not", "prec"} THEN HasOptionNode(t.e)
+  ELSE t.k \in {"g_depth", "g_threads", "g_maxdepth", "g_mindepth"}
 Judge(r) ==
   LET e == ParseText(r.i)
       obs == r.obs
   IN
-  IF e.st = "unspec" THEN [cls |-> "unspec", kinds |-> <<>>]
+  IF obs.st = "ok" /\ HasOptionNode(obs.t) THEN [cls |-> e.st, kinds |-> <<"option-in-tree">>]
+  ELSE IF e.st = "unspec" THEN [cls |-> "unspec", kinds |-> IF obs.st = "panic" THEN <<"panic">> ELSE <<>>]
   ELSE IF obs.st = "panic" THEN [cls |-> e.st, kinds |-> <<"panic">>]
   ELSE IF e.st = "ok" THEN
      IF obs.st = "ok" THEN
